@@ -56,7 +56,8 @@ class Anchors:
     scan_cls: ClassInfo | None
     universe: list[FuncInfo]
     filter_cls: ClassInfo | None
-    pred_names: set[str] = field(default_factory=set)
+    pred_names: set[str] = field(default_factory=set)  # names under which the predicate is called from the scan
+    pred_methods: set[str] = field(default_factory=set)  # names of the predicate's method(s) in the filter class
 
 
 def lib_name(repo: Repo, fi: FuncInfo, call: ast.Call) -> str:
@@ -74,6 +75,42 @@ def _regex_class(repo: Repo, ci: ClassInfo) -> bool:
     return False
 
 
+def _proper_predicates(repo: Repo, ci: ClassInfo, call_names: set[str], method_names: set[str]) -> tuple[set[str], set[str]]:
+    """Among the one-argument methods of the filter class that outside code calls, the predicates proper are those that do not
+    themselves go through another such method (`is_python_file_to_parse` -> `is_excluded`): the others are ordinary helpers that
+    the guard formulas look into."""
+    allm = [*ci.methods.values(), *ci.extra_methods]
+    public: set[str] = set()
+    for f in repo.all_functions():
+        if f.cls is ci:
+            continue
+        for c in calls_in(f.node):
+            if isinstance(c.func, ast.Attribute) and c.func.attr in ci.methods and len(c.args) + len(c.keywords) == 1:
+                public.add(c.func.attr)
+    public |= method_names
+
+    def bodies(name: str) -> list[FuncInfo]:
+        return [m for m in allm if m.name == name or f"{name}.register" in m.decorators]
+
+    def reaches(name: str, seen: set[str]) -> set[str]:
+        out: set[str] = set()
+        for m in bodies(name):
+            for c in [n for n in ast.walk(m.node) if isinstance(n, ast.Call)]:
+                if isinstance(c.func, ast.Attribute) and isinstance(c.func.value, ast.Name) and c.func.value.id in ("self", "cls") and c.func.attr in ci.methods:
+                    t = c.func.attr
+                    if t == name or t in seen:
+                        continue
+                    out.add(t)
+                    out |= reaches(t, seen | {t, name})
+        return out
+
+    proper = {n for n in method_names if not (reaches(n, {n}) & (public - {n}))}
+    if not proper:
+        return call_names, method_names
+    drop = method_names - proper
+    return {n for n in call_names if n not in drop}, proper
+
+
 def discover(repo: Repo) -> Anchors:
     T = types_of(repo)
     listing: list[FuncInfo] = []
@@ -87,48 +124,76 @@ def discover(repo: Repo) -> Anchors:
     if not listing:
         raise AnalysisError("no directory listing call (iterdir / os.listdir / os.scandir / os.walk) found in the repository: the scan cannot be located")
     mods = {f.module.name for f in listing}
-    cands = [f for f in listing if f.module.name in {p.module.name for p in parsing}] or listing
-    home = cands[0]
-    scan_cls = home.cls
-    if scan_cls is not None:
-        pool = [m for m in [*scan_cls.methods.values(), *scan_cls.extra_methods]]
-    else:
-        pool = [f for f in home.module.functions.values()]
+    # entry point: the innermost public function from which both a listing call and ast.parse are reachable
+    from .common import callees_of
+
+    callers: dict[str, set[str]] = {}
+    funcs = {f.fq: f for f in repo.all_functions()}
+    for f in funcs.values():
+        for g in callees_of(repo, f, byname=False):
+            callers.setdefault(g.fq, set()).add(f.fq)
+
+    def up(seeds: list[FuncInfo]) -> set[str]:
+        seen = {f.fq for f in seeds}
+        work = list(seen)
+        while work:
+            x = work.pop()
+            for c in callers.get(x, ()):
+                if c not in seen:
+                    seen.add(c)
+                    work.append(c)
+        return seen
+
+    both = up(listing) & (up(parsing) if parsing else up(listing))
+    cands = [funcs[q] for q in both if not funcs[q].name.startswith("_") and not isinstance(funcs[q].node, ast.Lambda) and funcs[q].outer is None]
     entries = []
-    for m in pool:
-        if m.name.startswith("_"):
-            continue
-        reach = reachable_funcs(repo, [m], byname=False)
-        if any(f in reach for f in listing):
-            entries.append(m)
+    for c in cands:
+        below = reachable_funcs(repo, [c], byname=False)
+        if not any(o is not c and o in below for o in cands):
+            entries.append(c)
     if len(entries) != 1:
-        raise AnalysisError(f"the scan's public entry point is not unique: {[e.qualname for e in entries]} (modules with listing calls: {sorted(mods)})")
+        raise AnalysisError(f"the scan's public entry point is not unique: {sorted(e.qualname for e in entries)} (modules with listing calls: {sorted(mods)})")
     entry = entries[0]
+    scan_cls = entry.cls
     reach = reachable_funcs(repo, [entry], byname=False)
-    universe = [f for f in reach if f.module is entry.module and (scan_cls is None or f.cls is scan_cls or f.cls is None) and not isinstance(f.node, ast.Lambda)]
+    wide = [f for f in reach if not isinstance(f.node, ast.Lambda)]
     # the exclusion predicate: one-argument method of a class that applies regexes, called from the scan
-    found: dict[str, tuple[ClassInfo, set[str]]] = {}
-    for g in universe:
+    found: dict[str, tuple[ClassInfo, set[str], set[str]]] = {}
+    for g in wide:
+        if g.cls is not None and g.cls is not scan_cls and _regex_class(repo, g.cls):
+            continue
         for c in calls_in(g.node):
-            if not isinstance(c.func, ast.Attribute) or len(c.args) + len(c.keywords) != 1:
+            if not isinstance(c.func, (ast.Attribute, ast.Name)) or len(c.args) + len(c.keywords) != 1:
                 continue
             try:
                 cs, _how = T.callees(g, c, byname_fallback=False)
             except Exception:  # noqa: BLE001
                 continue
             for callee in cs:
-                if callee.cls is not None and callee.cls is not scan_cls and _regex_class(repo, callee.cls):
-                    found.setdefault(callee.cls.fq, (callee.cls, set()))[1].add(c.func.attr)
-    filter_cls, preds = None, set()
+                if callee.cls is not None and callee.cls is not scan_cls and callee.name != "__init__" and _regex_class(repo, callee.cls):
+                    rec = found.setdefault(callee.cls.fq, (callee.cls, set(), set()))
+                    rec[1].add(c.func.attr if isinstance(c.func, ast.Attribute) else c.func.id)
+                    rec[2].add(callee.name)
+    filter_cls, preds, methods = None, set(), set()
     if len(found) == 1:
-        filter_cls, preds = next(iter(found.values()))
-    elif not found:
+        filter_cls, preds, methods = next(iter(found.values()))
+        preds, methods = _proper_predicates(repo, filter_cls, preds, methods)
+    elif len(found) > 1:
+        # several regex-applying classes are called: the one the scan's constructor receives
+        for fq, rec in found.items():
+            if scan_cls is not None and any(T.param_type(i, p) == ("cls", fq) for i in [repo.lookup_method(scan_cls, "__init__")] if i is not None for p in i.param_names[1:]):
+                filter_cls, preds, methods = rec
+    if not preds:
         # fall back on the public name
-        for g in universe:
+        for g in wide:
             for c in calls_in(g.node):
                 if is_attr_call(c, "is_excluded"):
                     preds.add("is_excluded")
-    return Anchors(entry, scan_cls, universe, filter_cls, preds)
+                    methods.add("is_excluded")
+    universe = [f for f in wide if not (f.cls is not None and filter_cls is not None and (f.cls is filter_cls or repo.is_subclass(f.cls, filter_cls.fq)))]
+    anchors = Anchors(entry, scan_cls, universe, filter_cls, preds)
+    anchors.pred_methods = methods
+    return anchors
 
 
 # --------------------------------------------------------------------------- per-function facts
@@ -329,6 +394,7 @@ class Scan:
                 for callee in self.callees(h, c):
                     self.sites.setdefault(callee.fq, []).append((h, c))
         self._ret_cache: dict = {}
+        self._reach_cache: dict = {}
         self.derived_gate: list[str] = []
 
     def facts(self, g: FuncInfo) -> Facts:
@@ -343,6 +409,15 @@ class Scan:
             return []
         return [x for x in cs if x in self.U]
 
+    def any_callees(self, h: FuncInfo, c: ast.Call) -> list[FuncInfo]:
+        """Unique repo callee, also outside the scan's own functions (helpers of the filter class, other modules)."""
+        try:
+            cs, how = self.T.callees(h, c, byname_fallback=False)
+        except Exception:  # noqa: BLE001
+            return []
+        cs = [x for x in cs if not x.is_abstract and x.name != "__init__"]
+        return cs if how == "repo" and len(cs) == 1 else []
+
     def generator_of(self, g: FuncInfo, it: ast.expr) -> FuncInfo | None:
         if not isinstance(it, ast.Call):
             return None
@@ -352,9 +427,10 @@ class Scan:
         return None
 
     def is_pred(self, g: FuncInfo, c: ast.Call) -> bool:
-        if not isinstance(c.func, ast.Attribute) or len(c.args) + len(c.keywords) != 1:
+        if not isinstance(c.func, (ast.Attribute, ast.Name)) or len(c.args) + len(c.keywords) != 1:
             return False
-        if c.func.attr not in self.a.pred_names:
+        name = c.func.attr if isinstance(c.func, ast.Attribute) else c.func.id
+        if name not in self.a.pred_names and name not in self.a.pred_methods:
             return False
         if self.a.filter_cls is None:
             return True
@@ -430,7 +506,7 @@ class Scan:
                     return PY
             if lib_name(self.repo, g, e) == "os.path.isdir" and len(e.args) == 1 and fx.is_alias(e.args[0], R):
                 return ISDIR
-            cs = self.callees(g, e)
+            cs = self.callees(g, e) or self.any_callees(g, e)
             if len(cs) == 1 and depth < 6:
                 got = self.call_truth(g, e, cs[0], R, depth)
                 if got is not None:
@@ -505,7 +581,102 @@ class Scan:
         return frozenset(out)
 
     def guard(self, g: FuncInfo, node: ast.AST, R: frozenset | None, env: dict | None = None, depth: int = 0) -> Formula:
-        return f_and([self.F(g, e, R, env, depth) if pol else f_not(self.F(g, e, R, env, depth)) for e, pol in conds(g, node)])
+        """Path condition of `node`: the syntax-directed conditions of core/cfg (branch tests, negated early exits, comprehension
+        filters) conjoined with the forward reachability condition below (which also knows what holds *after* a branch that only
+        sometimes leaves the block).  Both are implied by the real path condition, so is their conjunction."""
+        syn = f_and([self.F(g, e, R, env, depth) if pol else f_not(self.F(g, e, R, env, depth)) for e, pol in conds(g, node)])
+        if depth > 0 or isinstance(g.node, ast.Lambda):
+            return syn
+        st = stmt_of(node)
+        fwd = self.reach(g, R, env).get(id(st), TRUE) if st is not None else TRUE
+        return f_and([syn, fwd]) if fwd != TRUE else syn
+
+    def reach(self, g: FuncInfo, R: frozenset | None, env: dict | None) -> dict[int, Formula]:
+        key = (g.fq, R, tuple(sorted((k, repr(v)) for k, v in (env or {}).items())))
+        if key in self._reach_cache:
+            return self._reach_cache[key]
+        out: dict[int, Formula] = {}
+        self._reach_cache[key] = out
+        canon = {a[1] for a in _CANON}
+        Rn = set(R or ())
+
+        def deps(name: str) -> set[str]:
+            if name in canon:
+                return Rn
+            import re as _re
+
+            return set(_re.findall(r"[A-Za-z_][A-Za-z_0-9]*", name.split(":", 1)[-1]))
+
+        def kill(f: Formula, names: set[str]) -> Formula:
+            if not names or f in (TRUE, FALSE):
+                return f
+            from core.guards import atoms_of
+
+            drop = [a for a in atoms_of(f) if deps(a) & names]
+            for a in drop:
+                f = f_or([_subst(f, a, True), _subst(f, a, False)])
+            return f
+
+        def stored(node: ast.AST) -> set[str]:
+            names: set[str] = set()
+            for n in ast.walk(node):
+                if isinstance(n, ast.Name) and isinstance(n.ctx, (ast.Store, ast.Del)):
+                    names.add(n.id)
+                elif isinstance(n, ast.Call) and isinstance(n.func, ast.Attribute) and n.func.attr in _MUTATORS:
+                    b = n.func.value
+                    while isinstance(b, (ast.Attribute, ast.Subscript)):
+                        b = b.value
+                    if isinstance(b, ast.Name) and b.id not in ("self", "cls"):
+                        names.add(b.id)
+            return names
+
+        def small(f: Formula) -> Formula:
+            from core.guards import atoms_of
+
+            return f if len(atoms_of(f)) <= 10 else TRUE
+
+        def block(stmts: list, cond: Formula) -> Formula:
+            for st in stmts:
+                out[id(st)] = cond
+                if isinstance(st, ast.If):
+                    t = self.F(g, st.test, R, env, 1)
+                    c0 = kill(cond, stored(st.test))
+                    a = block(st.body, f_and([c0, t]))
+                    b = block(st.orelse, f_and([c0, f_not(t)]))
+                    cond = small(f_or([a, b]))
+                elif isinstance(st, (ast.For, ast.AsyncFor, ast.While)):
+                    c0 = kill(cond, stored(st))
+                    t = self.F(g, st.test, R, env, 1) if isinstance(st, ast.While) and not (stored(st) & _names(st.test)) else TRUE
+                    block(st.body, f_and([c0, t]))
+                    block(st.orelse, c0)
+                    cond = c0
+                elif isinstance(st, (ast.Return, ast.Raise, ast.Continue, ast.Break)):
+                    cond = FALSE
+                elif isinstance(st, (ast.With, ast.AsyncWith)):
+                    cond = kill(cond, {n.id for it in st.items if it.optional_vars is not None for n in ast.walk(it.optional_vars) if isinstance(n, ast.Name)})
+                    cond = block(st.body, cond)
+                elif isinstance(st, ast.Try):
+                    c0 = kill(cond, stored(st))
+                    block(st.body, cond)
+                    for h in st.handlers:
+                        out[id(h)] = c0
+                        block(h.body, c0)
+                    block(st.orelse, c0)
+                    block(st.finalbody, c0)
+                    cond = c0
+                elif isinstance(st, ast.Match):
+                    c0 = kill(cond, stored(st))
+                    for case in st.cases:
+                        block(case.body, c0)
+                    cond = c0
+                elif isinstance(st, (ast.FunctionDef, ast.AsyncFunctionDef, ast.ClassDef)):
+                    continue
+                else:
+                    cond = kill(cond, stored(st))
+            return cond
+
+        block(list(g.node.body), TRUE)
+        return out
 
     # ------------------------------------------------------------------ interprocedural guard
     def totals(self, g: FuncInfo, node: ast.AST, R: frozenset | None, depth: int = 0, env: dict | None = None) -> list[Formula]:
@@ -696,6 +867,23 @@ class Scan:
 
 
 _CANON = [EXCL, PY, ISDIR, ISFILE]
+from core.cfg import MUTATORS as _MUTATORS  # noqa: E402
+
+
+def _names(e: ast.AST) -> set[str]:
+    return {n.id for n in ast.walk(e) if isinstance(n, ast.Name)}
+
+
+def _subst(f: Formula, name: str, value: bool) -> Formula:
+    k = f[0]
+    if k == "atom":
+        return (TRUE if value else FALSE) if f[1] == name else f
+    if k == "const":
+        return f
+    if k == "not":
+        return f_not(_subst(f[1], name, value))
+    parts = [_subst(x, name, value) for x in f[1]]
+    return f_and(parts) if k == "and" else f_or(parts)
 
 
 def project(f: Formula) -> Formula:
